@@ -387,6 +387,10 @@ func RandomTables(r *runner.Rand, o TableOptions) *File {
 				t.ZeroCountStts = true
 			}
 		}
+		if o.ZeroCountStts && t.HasCtts && r.Chance(1, 6) {
+			t.SplitCtts = randomCuts(r, n)
+			t.ZeroCountCtts = true
+		}
 		if r.Chance(1, 4) {
 			t.SplitStsc = randomCuts(r, len(t.ChunkLens))
 		}
@@ -515,6 +519,7 @@ type MovieOptions struct {
 	CarryProbe bool
 	ZeroSizes  bool // some tracks have zero-size samples (whole chunks without a byte when chunks are small)
 	LateSync   bool // some video tracks start inside a GOP: the first sync sample is not sample 1
+	ShortEdits bool // some tracks with an edit list present only a part of their media (tkhd duration shorter than the media)
 }
 
 // RandomMovie generates a multi-track movie whose tracks cover about the same
@@ -801,6 +806,10 @@ func RandomMovie(r *runner.Rand, o MovieOptions) *File {
 				t.Elst = []ElstEntry{{SegmentDuration: uint64(r.Range(1, 200)), MediaTime: -1}, {SegmentDuration: seg, MediaTime: mt}}
 			} else {
 				t.Elst = []ElstEntry{{SegmentDuration: seg, MediaTime: mt}}
+			}
+			if o.ShortEdits && ti > 0 && r.Chance(1, 3) {
+				t.ShortPresentation = r.Range(2, 4)
+				label += " short-edit"
 			}
 		}
 		f.Tracks = append(f.Tracks, t)
